@@ -127,7 +127,7 @@ REG = {
         dict(name='c19::fr_de_33', tier='quick', t=1200, stubbing=True),
         dict(name='c19::fq12_de_575', tier='thorough', t=3600, stubbing=True, mem=24),
         dict(name='c19::fq12_de_576', tier='thorough', t=5400, stubbing=True, mem=24),
-        dict(name='c19::fq12_de_577', tier='quick', t=5400, stubbing=True, mem=24),
+        dict(name='c19::fq12_de_577', tier='quick', t=5400, stubbing=True, mem=14),
     ],
 }
 
@@ -311,9 +311,27 @@ def _watchdog(pgid, mem_kb, stop, killed):
 
 
 def run_harnesses(ctx, prefix, tier_filter=True, only=None):
-    """all selected harnesses of a property in ONE `cargo kani` invocation (compiled once, verified on SLOTS threads)"""
-    chk = ctx.chk
+    """all selected harnesses of a property in one `cargo kani` invocation per memory class: the ordinary harnesses on SLOTS threads,
+    the memory-hungry ones (mem >= 20 GB: full 96/192-byte G2 decoders, 255-block expansions, Fq12 streams) afterwards with as many
+    jobs as fit into 52 GB"""
     hs = [h for h in REG[prefix] if (h['tier'] == 'quick' or ctx.tier == 'thorough' or not tier_filter)]
+    if only is None and os.environ.get('VERIF_KANI_ONLY'):      # debugging aid; never set by registered commands
+        only = os.environ['VERIF_KANI_ONLY'].split(',')
+    if only:
+        hs = [h for h in hs if any(o in h['name'] for o in only)]
+    small = [h for h in hs if h.get('mem', 0) < 20]
+    big = [h for h in hs if h.get('mem', 0) >= 20]
+    out = []
+    if small:
+        out += _run_group(ctx, prefix, small, min(SLOTS, len(small)), '')
+    if big:
+        out += _run_group(ctx, prefix, big, max(1, min(len(big), int(52 // max(h['mem'] for h in big)))), '-big')
+    return out
+
+
+def _run_group(ctx, prefix, hs, jobs, tag):
+    chk = ctx.chk
+    only = None
     if only is None and os.environ.get('VERIF_KANI_ONLY'):      # debugging aid; never set by registered commands
         only = os.environ['VERIF_KANI_ONLY'].split(',')
     if only:
@@ -343,11 +361,11 @@ def run_harnesses(ctx, prefix, tier_filter=True, only=None):
     try:
         tdir = os.path.join(root, 'kani-target-multi-%d' % slot)
         args = ['cargo', 'kani', '--exact'] + [x for n in names for x in ('--harness', n)] + \
-               ['-j', str(min(SLOTS, len(names))), '--output-format', 'terse', '--output-into-files', '-Z', 'stubbing', '-Z', 'unstable-options',
+               ['-j', str(jobs), '--output-format', 'terse', '--output-into-files', '-Z', 'stubbing', '-Z', 'unstable-options',
                 '--harness-timeout', '%ds' % tmax, '--target-dir', tdir]
         resdir = os.path.join(tdir, 'result_output_dir')
         shutil.rmtree(resdir, ignore_errors=True)
-        total = tmax * (1 + (len(names) - 1) // SLOTS) + 900
+        total = tmax * (1 + (len(names) - 1) // jobs) + 900
         # no `ulimit -v` on the whole invocation: kani-driver itself holds several GB with many harnesses and dies with "memory
         # allocation failed" (observed: one harness silently without a verdict).  Memory is policed per cbmc process instead.
         cmd = 'exec timeout -k 20 %d %s' % (total, ' '.join(args))
@@ -373,7 +391,7 @@ def run_harnesses(ctx, prefix, tier_filter=True, only=None):
         fcntl.flock(fh, fcntl.LOCK_UN)
         fh.close()
     wall = round(time.time() - t0, 1)
-    with open(os.path.join(logdir, prefix + '_multi.log'), 'w') as lf:
+    with open(os.path.join(logdir, prefix + tag + '_multi.log'), 'w') as lf:
         lf.write(out)
     per = parse_multi(out, names)
     for n, text in files.items():
@@ -398,7 +416,7 @@ def run_harnesses(ctx, prefix, tier_filter=True, only=None):
         results.append(r)
         chk.kani.append(r)
         print('  kani %-45s %-8s checks=%s covers=%s/%s %.0fs' % (r['harness'], r['status'], r['checks'], r['covers_sat'], r['covers'], r['seconds'] or 0))
-    chk.extra['kani_invocation'] = {'cbmc_killed_over_memory_budget': len(killed), 'per_cbmc_rss_budget_gb': round(mem_kb / 1048576, 1), 'harnesses': len(names), 'jobs': min(SLOTS, len(names)), 'wall_s': wall, 'per_harness_timeout_s': tmax,
+    chk.extra['kani_invocation' + tag] = {'cbmc_killed_over_memory_budget': len(killed), 'per_cbmc_rss_budget_gb': round(mem_kb / 1048576, 1), 'harnesses': len(names), 'jobs': jobs, 'wall_s': wall, 'per_harness_timeout_s': tmax,
                                     'flags': '--exact -j N --output-format terse -Z stubbing -Z unstable-options --harness-timeout'}
     return results
 
